@@ -49,7 +49,19 @@ def clamp_index(k, n):
     return If(k2 < 0, iv(0), If(k2 > n, n, k2))
 
 
-def slice_str(s, lo, hi):
+def clamp_ctx(st, k, n):
+    """clamp_index, simplified with the path condition when the index is provably inside [0, n]"""
+    if st is not None:
+        ck = const_int(k)
+        if ck is not None and ck >= 0:
+            if entails(st.pc, k <= n, 1000):
+                return k
+        elif entails(st.pc, And(k >= 0, k <= n), 1000):
+            return k
+    return clamp_index(k, n)
+
+
+def slice_str(s, lo, hi, st=None):
     """s[lo:hi] with python semantics; lo/hi are Int terms or None"""
     c = s.concrete()
     cl = const_int(lo) if lo is not None else None
@@ -63,9 +75,10 @@ def slice_str(s, lo, hi):
         raise Unsupported("symbolic slice of a literal")
     w = need_win(s, "slice")
     n = w.length()
-    a = w.lo + (clamp_index(lo, n) if lo is not None else iv(0))
-    b = w.lo + (clamp_index(hi, n) if hi is not None else n)
-    b = If(b < a, a, b)
+    a = w.lo + (clamp_ctx(st, lo, n) if lo is not None else iv(0))
+    b = w.lo + (clamp_ctx(st, hi, n) if hi is not None else n)
+    if not (st is not None and entails(st.pc, a <= b, 1000)):
+        b = If(b < a, a, b)
     return SStr([w.sub(z3.simplify(a), z3.simplify(b))], s.is_str)
 
 
@@ -168,10 +181,12 @@ def strip_generic(ex, st, s, cls, left, right):
     facts = [w.lo <= lo2, lo2 <= hi2, hi2 <= w.hi]
     if left:
         facts += [z3.ForAll([p], Implies(And(w.lo <= p, p < lo2), inc(p))),
-                  Or(lo2 == hi2, Not(inc(lo2)))]
+                  Or(lo2 == hi2, Not(inc(lo2))),
+                  Or(lo2 == w.lo, inc(lo2 - 1))]
     if right:
         facts += [z3.ForAll([p], Implies(And(hi2 <= p, p < w.hi), inc(p))),
-                  Or(lo2 == hi2, Not(inc(hi2 - 1)))]
+                  Or(lo2 == hi2, Not(inc(hi2 - 1))),
+                  Or(hi2 == w.hi, inc(hi2))]            # redundant instance: gives the solver the ground term base[hi2]
     if left and right:
         # all-strippable string: python returns '' ; pin the empty window so later adjacency reasoning is stable
         facts += [Implies(lo2 == hi2, lo2 == w.hi)]
@@ -524,7 +539,11 @@ def to_int(ex, st, v, base=10):
     fn = decval if base == 10 else hexval
     alld = And(w.length() > 0, all_chars(v, lambda ch: in_class(ch, cls)))
     out = []
-    a, b = ex.split(st, alld)
+    if entails(st.pc, alld, 2000):
+        # the code has already established that the text is all digits: int() cannot raise
+        a, b = st, None
+    else:
+        a, b = ex.split(st, alld)
     if a is not None:
         val = fn(w.base, w.lo, w.hi)
         a.assume(val >= 0, Implies(w.length() == 1, val == digit_value(z3.Select(w.base, w.lo))))
